@@ -12,7 +12,7 @@
    built from the vote list variant v is Append(p, v); proposing or importing the same (p, v) again yields
    the same block (same id) and another reference to the same node.
 
-   One action per public call: Propose, Import (of the encoded child (p, v)), Finalize, Dispose, Dup of a
+   One action per public call: Propose, Import (of the encoded child (p, v)), ImportBlock (of the decoded child), Finalize, Dispose, Dup of a
    handle, the readers GetLastBlock / GetBlockByHeight / GetBlock, WaitForBlock, and Cancel of a request
    (which in this manager can win only while the request is still executing). *)
 EXTENDS Integers, Sequences, FiniteSets, TLC
@@ -21,6 +21,7 @@ CONSTANTS Variants,     \* vote-list variants per parent (branching)
           MaxHandles,   \* handles given out in a behaviour
           MaxOps,
           Misuse,       \* TRUE: also explore Dispose of an already disposed handle (contract violation by the caller)
+          Quiet,        \* TRUE: only the calls that change the tree (no readers, waiters, late cancels): deeper trees per walk
           Race          \* TRUE: also explore a parent given back while a request on it is still executing
 
 Root == <<>>
@@ -139,18 +140,18 @@ WaitFor(k) == /\ Len(waits) < 2
               /\ Log([op |-> "waitfor", k |-> k, res |-> IF k <= Height(fin) THEN chain[k + 1] ELSE "pending"])
 
 Can == Len(hist) < MaxOps
-Next == \/ Can /\ \E op \in {"propose", "import"}, p \in Paths, v \in Variants : p \in created /\ Extend(op, p, v)
-        \/ Can /\ \E op \in {"propose", "import"}, p \in Paths, v \in Variants : p \in created /\ ExtendCancelled(op, p, v)
+Next == \/ Can /\ \E op \in {"propose", "import", "importblock"}, p \in Paths, v \in Variants : p \in created /\ Extend(op, p, v)
+        \/ Can /\ \E op \in {"propose", "import", "importblock"}, p \in Paths, v \in Variants : p \in created /\ ExtendCancelled(op, p, v)
         \/ Can /\ \E p \in Paths, v \in Variants, h \in Handles : p \in created /\ ExtendRaced(p, v, h)
         \/ Can /\ \E h \in Handles : Finalize(h)
         \/ Can /\ \E h \in Handles : Dispose(h)
         \/ Can /\ \E h \in Handles : DisposeAgain(h)
         \/ Can /\ \E h \in Handles : Dup(h)
-        \/ Can /\ \E h \in Handles : CancelLate(h)
-        \/ Can /\ GetLast
-        \/ Can /\ \E k \in 0..MaxLen : GetByHeight(k)
-        \/ Can /\ \E n \in Paths : GetBlock(n)
-        \/ Can /\ \E k \in 0..MaxLen : WaitFor(k)
+        \/ Can /\ ~Quiet /\ \E h \in Handles : CancelLate(h)
+        \/ Can /\ ~Quiet /\ GetLast
+        \/ Can /\ ~Quiet /\ \E k \in 0..MaxLen : GetByHeight(k)
+        \/ Can /\ ~Quiet /\ \E n \in Paths : GetBlock(n)
+        \/ Can /\ ~Quiet /\ \E k \in 0..MaxLen : WaitFor(k)
 Spec == Init /\ [][Next]_vars
 
 ----------------------------------------------------------------------------
